@@ -491,7 +491,93 @@ func c03Structural(w *run.Worker) {
 	}
 }
 
+// c03Chains: if/elif chains of 3 and 4 branches whose conditions compare ONE name with literals, some
+// literal repeated, the operands in either order: the first branch whose condition holds runs, whatever
+// a table built from the literals would say.
+func c03Chains(w *run.Worker) {
+	I, S, Id := rt.Int, rt.Str, rt.Id
+	conds := []nodeFn{
+		func() *rt.Node { return rt.Bin("==", Id("x"), S("a")) }, func() *rt.Node { return rt.Bin("==", Id("x"), S("b")) },
+		func() *rt.Node { return rt.Bin("==", S("a"), Id("x")) }, func() *rt.Node { return rt.Bin("==", Id("x"), I(1)) },
+		func() *rt.Node { return rt.Bin("!=", Id("x"), S("a")) },
+	}
+	vals := []nodeFn{func() *rt.Node { return S("a") }, func() *rt.Node { return S("b") }, func() *rt.Node { return S("c") }, func() *rt.Node { return I(1) }, rt.Nil, func() *rt.Node { return Id("pk") }}
+	for n := 3; n <= 4; n++ {
+		total := 1
+		for i := 0; i < n; i++ {
+			total *= len(conds)
+		}
+		for code := 0; code < total; code++ {
+			for _, withElse := range []bool{false, true} {
+				for _, v := range vals {
+					if !w.Take() {
+						continue
+					}
+					var args []*rt.Node
+					c := code
+					for b := 0; b < n; b++ {
+						args = append(args, conds[c%len(conds)](), rt.Block(rt.Call("p", I(int64(b+1)))))
+						c /= len(conds)
+					}
+					if withElse {
+						args = append(args, rt.Block(rt.Call("p", I(0))))
+					}
+					c03Exec(w, "chain", []*rt.Node{rt.Assign("=", Id("x"), v()), rt.If(args...), rt.Call("p", I(9))})
+				}
+			}
+		}
+	}
+}
+
+// c03Rounds: loop bodies whose statements depend on the round: a name assigned at body level in one
+// round, inside a nested block in another, read in between and after the loop. Every round starts with
+// a fresh body frame; a name first assigned inside a nested block ends with that block.
+func c03Rounds(w *run.Worker) {
+	I, Id := rt.Int, rt.Id
+	for _, name := range []string{"y", "pk"} {
+		y := func() *rt.Node { return Id(name) }
+		pool := []nodeFn{
+			func() *rt.Node { return rt.Assign("=", y(), Id("i")) },
+			func() *rt.Node { return rt.Call("p", y()) },
+			func() *rt.Node { return rt.If(rt.Bin("==", Id("i"), I(1)), rt.Block(rt.Assign("=", y(), I(10)))) },
+			func() *rt.Node { return rt.If(rt.Bin("==", Id("i"), I(2)), rt.Block(rt.Assign("=", y(), I(20)))) },
+			func() *rt.Node { return rt.If(rt.Bin(">=", Id("i"), I(2)), rt.Block(rt.Call("p", y()))) },
+			func() *rt.Node {
+				return rt.If(rt.Bin("==", Id("i"), I(2)), rt.Block(rt.If(rt.Bool(true), rt.Block(rt.Assign("=", y(), I(30)))), rt.Call("p", y())))
+			},
+		}
+		loops := []func(body *rt.Node) *rt.Node{
+			func(body *rt.Node) *rt.Node { return rt.ForIn("i", rt.List(I(1), I(2), I(3)), body) },
+			func(body *rt.Node) *rt.Node {
+				return rt.For(rt.Assign("=", Id("i"), I(1)), rt.Bin("<=", Id("i"), I(3)), rt.Assign("=", Id("i"), rt.Bin("+", Id("i"), I(1))), body)
+			},
+		}
+		for n := 2; n <= 4; n++ {
+			total := 1
+			for i := 0; i < n; i++ {
+				total *= len(pool)
+			}
+			for code := 0; code < total; code++ {
+				for _, l := range loops {
+					if !w.Take() {
+						continue
+					}
+					var body []*rt.Node
+					c := code
+					for b := 0; b < n; b++ {
+						body = append(body, pool[c%len(pool)]())
+						c /= len(pool)
+					}
+					c03Exec(w, "rounds", []*rt.Node{l(rt.Block(body...)), rt.Call("p", y())})
+				}
+			}
+		}
+	}
+}
+
 func c03Run(w *run.Worker) {
+	c03Chains(w)
+	c03Rounds(w)
 	c03Truthiness(w)
 	c03ForIn(w)
 	c03ForInAgain(w)
